@@ -58,6 +58,11 @@ struct InnerHeap {
 
 impl InnerHeap {
     unsafe fn grow(&mut self) -> bool {
+        #[cfg(feature = "verif_hooks")]
+        if crate::machine::verif_hooks::alloc_fault::should_fail() {
+            return false;
+        }
+
         let new_cap = if self.byte_cap == 0 {
             256 * 256 * 8
         } else {
